@@ -1850,16 +1850,28 @@ static void emit_text(Obj *prog) {
   }
 }
 
+// Writes a file name as a string of the assembler.
+static char *quote_filename(char *name) {
+  char *buf = calloc(1, strlen(name) * 2 + 1);
+  char *q = buf;
+  for (char *p = name; *p; p++) {
+    if (*p == '"' || *p == '\\')
+      *q++ = '\\';
+    *q++ = *p;
+  }
+  return buf;
+}
+
 void codegen(Obj *prog, FILE *out) {
   output_file = out;
 
   // Name the object file's symbols after the input file; the linker
   // would name them after our temporary file otherwise.
-  println("  .file \"%s\"", base_file);
+  println("  .file \"%s\"", quote_filename(base_file));
 
   File **files = get_input_files();
   for (int i = 0; files[i]; i++)
-    println("  .file %d \"%s\"", files[i]->file_no, files[i]->name);
+    println("  .file %d \"%s\"", files[i]->file_no, quote_filename(files[i]->name));
 
   assign_lvar_offsets(prog);
   emit_data(prog);
